@@ -37,6 +37,9 @@ CLAIMED = {
  "C14": ("proptest-generated interior points of exp/pow/genpow cones; dual barriers re-implemented and differentiated exactly with nested dual numbers",
          "Exploration: 80k (quick) / 3M (thorough) (cone, s, z, directions, mu) tuples over exponents incl. within 1e-3 of 0/1, dim1<=5, dim2<=4, magnitudes 1e+-6, boundary distance 1e-6..2; membership predicates, stored gradient/Hessian (also after reuse of the cone object), mu*H under dual scaling, conjugacy of the primal gradient (measured on g against an exact Newton solve), primal barrier identity, third-order correction, secant properties of the primal-dual scaling, and centrality of the starting point are compared with exact derivatives.",
          "Trusted: the barrier definitions and forward-mode dual numbers in harness/src/dual.rs; tolerance max(1e-9, 1e4 eps/delta); third-order term judged only for delta>=1e-3.", "DESIGN.md §4 C14"),
+ "C15": ("proptest-generated (cone, interior point, direction, alpha_max, line-search settings) with an exact boundary distance from bisection on the oracle's membership functions",
+         "Exploration: 80k single-cone + 30k composite step cases and 40k initialisation cases (quick; 5M thorough): every cone kind and dimension, boundary distances 1e-10..1, magnitudes 1e+-6, direction classes incl. zero/tiny/huge/through-the-apex; the returned step never exceeds alpha_max, never leaves any cone, equals the exact boundary distance for symmetric cones, is alpha_max*step^j with an infeasible previous trial (or the documented zero / cap) for nonsymmetric ones, and composites are within one backtracking factor of the joint boundary; margins, unit shifts and symmetric_initialization are compared with their definitions.",
+         "Trusted: membership functions in harness/src/oracle.rs, bisection along the ray (feasible set is an interval), tolerance max(1e4 eps/margin, 8 sqrt(eps/margin)) for (double) roots; PSD cone on the BLAS shim.", "DESIGN.md §4 C15"),
  "C16": ("exhaustive small-scope enumeration + proptest-generated cases against a dense reference model",
          "Exploration: every sparsity pattern up to 3x3/4x3, every short triplet list and every small raw encoding is enumerated, plus tens of thousands of generated larger cases; each is compared with == against a dense model. Failing cases shrink to a replay file. Does not prove absence beyond the enumerated scope.",
          "Trusted: the dense model / is_canonical predicate in harness/src/props/c16.rs; exact arithmetic on small integers.",
